@@ -308,3 +308,78 @@ pub fn drive_serde(cx: &mut Ctx) {
         }
     }
 }
+
+// ---------------------------------------------------------------------------------------
+// C16: toroidal (wrapping) construction, later insertions
+// ---------------------------------------------------------------------------------------
+fn toroidal_case<K: Kern<D>, const D: usize>(cx: &mut Ctx, r: &mut Rng, idx: usize) {
+    let g = GUARANTEES[idx % 3];
+    // periods in lattice units, scale exponent chosen so that periods like 0.5, 0.75, 1, 2, 3 occur
+    let s = *r.pick(&[0, 0, -2, -3, 1]);
+    cx.tr.s = s;
+    cx.start_case(format!("C16 toroidal D={D} k={} s={s} i={idx}", K::NAME));
+    let lm: Vec<i64> = (0..D).map(|_| *r.pick(&[4, 6, 8, 12, 3])).collect();
+    let n = D + 2 + r.below(5);
+    let mut input: Vec<VIn> = Vec::new();
+    for i in 0..n {
+        let m: Vec<i64> = (0..D)
+            .map(|j| {
+                let base = r.range(0, lm[j] - 1);
+                let k = match r.below(6) {
+                    0 => 0,
+                    1 => 1,
+                    2 => -1,
+                    3 => r.range(-5, 5),
+                    4 => r.range(-1_000, 1_000),
+                    _ => if r.chance(1, 2) { 1 << 20 } else { -(1 << 20) },
+                };
+                // exactly on a face (m multiple of L) now and then
+                let b = if r.chance(1, 8) { 0 } else { base };
+                (b + k * lm[j]).clamp(-(1 << 28), 1 << 28)
+            })
+            .collect();
+        input.push(VIn::lattice(cx.fresh_uuid(), m, Some(i as i32)));
+    }
+    // an off-lattice boundary probe: just below zero / just below L on axis 0
+    if idx % 3 == 0 {
+        let mut m = vec![0i64; D];
+        for j in 1..D {
+            m[j] = r.range(0, lm[j] - 1);
+        }
+        let off = if idx % 2 == 0 { -pow2(-60) * pow2(s) } else { -pow2(-70) };
+        input.push(VIn { uuid: mk_uuid(cx.fresh_uuid()), m, off, cls: "probe", data: Some(99) });
+    }
+    let Some(mut dt) = op_construct_toroidal::<K, D>(&mut cx.tr, 0, g, &lm, false, &input) else {
+        cx.tr.s = 0;
+        return;
+    };
+    op_verdicts(&mut cx.tr, 0, &dt, 7);
+    // later insertions are wrapped the same way
+    for _ in 0..3 {
+        let m: Vec<i64> = (0..D).map(|j| r.range(0, lm[j] - 1) + r.range(-3, 3) * lm[j]).collect();
+        let v = VIn::lattice(cx.fresh_uuid(), m, Some(50));
+        if !op_insert(&mut cx.tr, 0, &mut dt, &v, r.chance(1, 2)) {
+            break;
+        }
+    }
+    cx.tr.s = 0;
+}
+
+pub fn drive_toroidal(cx: &mut Ctx) {
+    let per_dim = if cx.thorough { 150 } else { 24 };
+    for d in 2..=3usize {
+        for i in 0..per_dim {
+            let mut r = Rng::new(cx.seed * 6_000_011 + (d * 100_000 + i) as u64);
+            if !cx.mine() {
+                continue;
+            }
+            let k = (i / 3) % 2;
+            match (d, k) {
+                (2, 0) => toroidal_case::<FastKernel<f64>, 2>(cx, &mut r, i),
+                (2, _) => toroidal_case::<RobustKernel<f64>, 2>(cx, &mut r, i),
+                (_, 0) => toroidal_case::<FastKernel<f64>, 3>(cx, &mut r, i),
+                (_, _) => toroidal_case::<RobustKernel<f64>, 3>(cx, &mut r, i),
+            }
+        }
+    }
+}
